@@ -39,6 +39,9 @@ func Exemplars() map[string]*Exemplar {
 	exemplars = map[string]*Exemplar{}
 	Full().Install()
 	for k := gen.Kind(0); k < gen.NumKinds; k++ {
+		if k == gen.LGiven {
+			continue // stands for a value handed in by a scenario
+		}
 		g := gen.New(tape.NewReplay(nil), gen.Config{Alpha: gen.Plain, RootKinds: []gen.Kind{k}, MaxNodes: 6, NoErrArgs: true})
 		spec := g.Tree()
 		data, p := obs.Encode(gen.Build(spec))
